@@ -47,6 +47,9 @@ def judge_seq(ctx, outs, what, atomic=True, exact=True, filt=None):
             p = ctx.save_replay("%s-%s-%s.txt" % (what, kind, os.path.basename(out)), [text])
             ctx.violation(p, "%s in the engine while running %s:\n%s" % (kind, what, text[:1500]), match={"kind": kind})
         if summ is None:
+            if rc == 97:
+                ctx.undecided.append("a steered script got stuck: " + o[:300].replace("\n", " "))
+                continue
             if not common.hard_failures(o):
                 raise Machinery("harness run failed rc=%s\n%s" % (rc, o[-2000:]))
             continue
@@ -326,6 +329,9 @@ def judge_crash(ctx, outs, what, mode):
             ctx.violation(p, "%s in the engine while running the crash workload:\n%s" % (kind, text[:1500]),
                           match={"kind": kind})
         if summ is None:
+            if rc == 97:
+                ctx.undecided.append("a steered crash workload got stuck: " + o[:300].replace("\n", " "))
+                continue
             if not common.hard_failures(o):
                 raise Machinery("harness run failed rc=%s\n%s" % (rc, o[-2000:]))
             continue
